@@ -363,10 +363,11 @@ class Ctx:
         self.impl_calls = 0
         self.notes: List[str] = []
         self.deadline: Optional[float] = None
+        self.scale = 1.0
 
     # --- budgets
     def budget(self, quick: int, thorough: int) -> int:
-        scale = float(os.environ.get("VERIF_BUDGET_SCALE", "1"))
+        scale = float(os.environ.get("VERIF_BUDGET_SCALE", "1")) * self.scale
         return max(1, int((quick if self.tier == "quick" else thorough) * scale))
 
     def thorough(self) -> bool:
@@ -436,3 +437,29 @@ def describe_dfa(d) -> dict:
 
 def describe_nfa(n) -> dict:
     return dict(kind="NFA", python=repr(n))
+
+
+def guarded(fn):
+    """Decorator for per-case functions `f(ctx, ...)` of the ops modules: an exception raised by
+    harness code while digesting what the real code returned (typically: the code now returns a
+    value of an unexpected shape) is recorded as a correspondence difference for that case and
+    the run goes on — it must neither abort the search for a failing input nor be mistaken for an
+    infrastructure error.  InfraError (driver died, protocol error) still propagates."""
+    import functools
+    import traceback
+
+    @functools.wraps(fn)
+    def wrapper(ctx, *args, **kw):
+        try:
+            return fn(ctx, *args, **kw)
+        except InfraError:
+            raise
+        except RecursionError:
+            raise
+        except Exception as e:  # noqa: BLE001
+            tb = traceback.format_exc().strip().splitlines()[-6:]
+            ctx.stat("harness_exception")
+            ctx.corr_diff("harness-exception:" + fn.__name__,
+                          dict(args=[repr(a)[:300] for a in args]), f"{type(e).__name__}: {e}", tb)
+            return None
+    return wrapper
